@@ -87,9 +87,17 @@ func (cfg *vfC15Cfg) pathString(p []vfC15Op) []string {
 	return out
 }
 
-// vfC15Content: deterministic, non-zero pattern of object k (insertion ordinal), version ver.
+const vfC15ZeroSize = 6
+
+// vfC15Content: deterministic pattern of object k (insertion ordinal), version ver; non-zero
+// in every byte except for objects of vfC15ZeroSize bytes.
 func vfC15Content(k, ver, size int) []byte {
 	b := make([]byte, size)
+	if size == vfC15ZeroSize {
+		// one size of the alphabet carries all-zero content: a value like any other (the heap
+		// marks deletion by zeroing, so this is the content most easily mistaken for "gone")
+		return b
+	}
 	for j := range b {
 		b[j] = byte(1 + (k*53+ver*29+j*7+(j>>4)*3)%251)
 	}
@@ -1079,7 +1087,7 @@ func vfC15SecondReader(r *vkit.Run) {
 func TestVerif_C15(t *testing.T) {
 	r := vkit.Start(t, "C15", "model_checking")
 	defer r.Finish()
-	r.Rule("explicit-state BFS over the real WritableFractalHeap with 64-byte direct blocks (usable 45 = 64-15-4): ops insert(size in {1,7,20,44,45,46,64,65}) / overwrite same size / overwrite size+-1 / delete / " +
+	r.Rule("explicit-state BFS over the real WritableFractalHeap with 64-byte direct blocks (usable 45 = 64-15-4): ops insert(size in {1,6 (all-zero content),7,20,44,45,46,64,65}) / overwrite same size / overwrite size+-1 / delete / " +
 		"WriteToFile+LoadFromFile / WriteAt+LoadFromFile, <=4 live objects, depth 6 quick (thorough deeper); successor = replay on a fresh heap; dedup on (complete private state, model with ids and contents); " +
 		"where several child blocks have room every map-iteration choice is a separate successor; each new state is executed twice (identical observations required) and written to an in-memory image: " +
 		"object bytes in the image, LoadFromFile, read-only reader, re-write and WriteAt byte identity; every transition is a non-trivial case (distinct (state,op) by construction); " +
@@ -1088,7 +1096,7 @@ func TestVerif_C15(t *testing.T) {
 	r.Assume("what GetObject returns for a stale (deleted) id is not specified by the statement; only 'no panic, no state change' is required")
 	r.Assume("forcing a map iteration order = temporarily hiding the other child blocks from fh.DirectBlocks during InsertObject; a forced choice counts only if the library itself put the object into that block")
 
-	sizes := []int{1, 7, 20, 44, 45, 46, 64, 65}
+	sizes := []int{1, vfC15ZeroSize, 7, 20, 44, 45, 46, 64, 65}
 	depth, maxStates := 6, 3000000
 	if r.Thorough() {
 		depth, maxStates = 8, 20000000
